@@ -313,6 +313,10 @@ type Fs struct {
 	Entries []*Entry
 	L       *Ledger
 	Faults  bool
+	// FaultErr is what an injected fault returns (nil = ErrIO); FaultBudget bounds the number of injected faults (0 = any)
+	FaultErr    error
+	FaultBudget int
+	faultsUsed  int
 	// LastResultOK is the outcome of the last Mkdir/Remove/Rename
 	LastResultOK bool
 	// Guard, when set, is called with the path of every operation before anything else.
@@ -335,7 +339,24 @@ func (s *Fs) LastHandle(path string) *File {
 
 var _ afero.Fs = (*Fs)(nil)
 
-func (s *Fs) fault(what string) bool { return s.Faults && verifrt.Bool("fsfault."+what) }
+func (s *Fs) fault(what string) bool {
+	if !s.Faults || (s.FaultBudget != 0 && s.faultsUsed >= s.FaultBudget) {
+		return false
+	}
+	if verifrt.Bool("fsfault." + what) {
+		s.faultsUsed++
+		return true
+	}
+	return false
+}
+
+// ferr is the error an injected file-system fault reports (FaultErr, or ErrIO when unset).
+func (s *Fs) ferr() error {
+	if s.FaultErr != nil {
+		return s.FaultErr
+	}
+	return ErrIO
+}
 
 func trimSlash(p string) string {
 	for len(p) > 0 && p[0] == '/' {
@@ -365,7 +386,7 @@ func (s *Fs) note(op, path string, flag int) {
 func (s *Fs) open(op, name string, flag int) (afero.File, error) {
 	s.note(op, name, flag)
 	if s.fault(op) {
-		return nil, ErrIO
+		return nil, s.ferr()
 	}
 	e := s.find(name)
 	var tmpl *File
@@ -411,7 +432,7 @@ func (s *Fs) Create(name string) (afero.File, error) {
 func (s *Fs) Stat(name string) (os.FileInfo, error) {
 	s.note("stat", name, 0)
 	if s.fault("stat") {
-		return nil, ErrIO
+		return nil, s.ferr()
 	}
 	e := s.find(name)
 	if e == nil || e.Gone {
